@@ -2,6 +2,7 @@
 once: Deferred obligations, endpoint walk, loss sequence, iterate-while-
 calling-out, proxy registry."""
 import ast
+import os
 
 from ..loader import AnalysisError
 from ..sym import (C, NONE, Interp, State, contains, is_const, iter_events,
@@ -35,7 +36,9 @@ META = {
     'trusted_base': ['Twisted delivers connectionLost exactly once per '
                      'connection', 'txsa.sym interpreter', 'CPython ast'],
     'assumptions': ['handlers are atomic (reactor)'],
-    'decided': ['D1 connect Deferred obligation', 'D2 endpoint walk',
+    'decided': ['D1 connect Deferred obligation', 'D2 endpoint walk '
+                '(incl. no state carried from one address entry to the next '
+                'while the list is parsed)',
                 'D3 loss sequence', 'D4 no iteration of live containers '
                 'while calling out', 'D5 proxy registry',
                 'D6 callback / pending registries are per instance (no '
@@ -58,11 +61,12 @@ def run(ctx):
     prog = ctx.prog
     deferred_obligation(ctx)
     endpoint_walk(ctx)
+    entry_state_is_per_entry(ctx)
     loss_sequence(ctx)
     callout_loops(ctx)
     proxy_registry(ctx)
     per_instance_registries(ctx)
-    ctx.floor('C09.D6', 3)
+    ctx.floor('C09.D6', 2)
     ctx.floor('C09.D1', 4)
     ctx.floor('C09.D2', 4)
     ctx.floor('C09.D3', 4)
@@ -206,6 +210,9 @@ def endpoint_walk(ctx):
             continue
         pops = [c for c in p.calls() if kind(c[2]) == 'attr' and
                 c[2][2] == 'pop' and c[2][1] == ('free', 'eplist')]
+        # ... or next(<iterator over the list made in connect>, default)
+        nexts = [c for c in p.calls() if c[2] == ('builtin', 'next') and
+                 c[3] and kind(c[3][0]) == 'free']
         chained = False
         for c in p.calls():
             if kind(c[2]) == 'attr' and c[2][2] == 'addErrback' and \
@@ -213,8 +220,9 @@ def endpoint_walk(ctx):
                     c[3][0][1] == tn.qualname:
                 inner = c[2][1]
                 if kind(inner) == 'call' and kind(inner[2]) == 'attr' and \
-                        inner[2][2] == 'connect' and pops and \
-                        inner[2][1] == pops[0]:
+                        inner[2][2] == 'connect' and (
+                            (pops and inner[2][1] == pops[0]) or
+                            (nexts and inner[2][1] == nexts[0])):
                     chained = True
         fires = any(kind(c[2]) == 'attr' and c[2][2] == 'errback' and
                     c[2][1] == ('free', 'd') for c in p.calls())
@@ -231,6 +239,174 @@ def endpoint_walk(ctx):
                    'endpoints must be tried in listed order: reverse() + '
                    'pop(), or pop(0) (found pop(%s), reverse(): %s)'
                    % (term_str(idx) if idx is not None else '', rev))
+
+
+        for c in nexts:
+            name = c[3][0][1]
+            made = [n.value for n in ast.walk(cn.node)
+                    if isinstance(n, ast.Assign) and len(n.targets) == 1 and
+                    isinstance(n.targets[0], ast.Name) and
+                    n.targets[0].id == name]
+            ok = len(made) == 1 and isinstance(made[0], ast.Call) and \
+                isinstance(made[0].func, ast.Name) and \
+                made[0].func.id == 'iter' and len(made[0].args) == 1 and \
+                isinstance(made[0].args[0], ast.Name) and \
+                '.reverse()' not in src and 'reversed(' not in src
+            ctx.ob('C09.D2', tn.qualname, 'listed-order', ok,
+                   'endpoints must be tried in listed order: %s must be one '
+                   'iter() over the endpoint list, not reversed' % name)
+
+
+_MUT = {'append', 'extend', 'insert', 'pop', 'remove', 'clear', 'update',
+        'add', 'discard', 'setdefault', 'popitem', 'sort', 'reverse'}
+
+
+class _Fresh:
+    """Definite-assignment walk over one loop body: which names are read
+    or mutated on some path of an iteration before that iteration assigned
+    them (so their value comes from an earlier iteration)?"""
+
+    def __init__(self, body, allowed):
+        self.body_assigned = set()
+        for st in body:
+            for n in ast.walk(st):
+                if isinstance(n, ast.Name) and isinstance(n.ctx, ast.Store):
+                    self.body_assigned.add(n.id)
+        self.allowed = allowed
+        self.carried = {}        # name -> (line, how)
+        self.block(body, frozenset())
+
+    # returns the set definitely assigned after the block, or None when the
+    # end of the block is unreachable
+    def block(self, stmts, have):
+        for st in stmts:
+            have = self.stmt(st, have)
+            if have is None:
+                return None
+        return have
+
+    def use(self, node, have):
+        for n in ast.walk(node):
+            if isinstance(n, ast.Name) and isinstance(n.ctx, ast.Load) and \
+                    n.id in self.body_assigned and n.id not in have and \
+                    n.id not in self.allowed:
+                self.carried.setdefault(n.id, (n.lineno, 'read'))
+            # mutation of a container that this iteration did not create
+            tgt = None
+            if isinstance(n, ast.Subscript) and \
+                    isinstance(n.ctx, (ast.Store, ast.Del)):
+                tgt = n.value
+            if isinstance(n, ast.Call) and \
+                    isinstance(n.func, ast.Attribute) and \
+                    n.func.attr in _MUT:
+                tgt = n.func.value
+            if isinstance(tgt, ast.Name) and tgt.id not in have and \
+                    tgt.id not in self.allowed:
+                self.carried.setdefault(tgt.id, (tgt.lineno, 'mutated'))
+
+    def targets(self, t, have):
+        out = set()
+        for n in ast.walk(t):
+            if isinstance(n, ast.Name) and isinstance(n.ctx, ast.Store):
+                out.add(n.id)
+        return have | out
+
+    def stmt(self, st, have):
+        if isinstance(st, ast.Assign):
+            self.use(st.value, have)
+            for t in st.targets:
+                self.use(t, have)
+                have = self.targets(t, have)
+            return have
+        if isinstance(st, ast.AugAssign):
+            self.use(st.value, have)
+            self.use(_load(st.target), have)
+            return have
+        if isinstance(st, ast.If):
+            self.use(st.test, have)
+            a = self.block(st.body, have)
+            b = self.block(st.orelse, have)
+            if a is None:
+                return b
+            if b is None:
+                return a
+            return a & b
+        if isinstance(st, (ast.For, ast.While)):
+            self.use(st.iter if isinstance(st, ast.For) else st.test, have)
+            inner = self.targets(st.target, have) \
+                if isinstance(st, ast.For) else have
+            self.block(st.body, inner)
+            self.block(st.orelse, have)
+            return have
+        if isinstance(st, ast.Try):
+            a = self.block(st.body, have)
+            outs = [a]
+            for h in st.handlers:
+                outs.append(self.block(h.body, have))
+            outs = [o for o in outs if o is not None]
+            res = frozenset.intersection(*map(frozenset, outs)) \
+                if outs else None
+            if res is not None and st.finalbody:
+                res = self.block(st.finalbody, res)
+            return res
+        if isinstance(st, (ast.Continue, ast.Break, ast.Return, ast.Raise)):
+            self.use(st, have)
+            return None
+        if isinstance(st, ast.With):
+            for it in st.items:
+                self.use(it.context_expr, have)
+                if it.optional_vars is not None:
+                    have = self.targets(it.optional_vars, have)
+            return self.block(st.body, have)
+        self.use(st, have)
+        return have
+
+
+def _load(t):
+    if isinstance(t, ast.Name):
+        return ast.Name(id=t.id, ctx=ast.Load(), lineno=t.lineno,
+                        col_offset=t.col_offset)
+    return t
+
+
+def entry_state_is_per_entry(ctx):
+    """getDBusEndpoints turns 'a;b;c' into endpoints, one per entry.  The
+    walk of client.connect tries the LISTED addresses only if nothing parsed
+    from one entry survives into the next: inside the loop over the entries
+    every name the body assigns must be assigned in the same iteration before
+    it is read or mutated; only the result list accumulates."""
+    prog = ctx.prog
+    fi = prog.func('endpoints.getDBusEndpoints')
+    returned = {n.value.id for n in ast.walk(fi.node)
+                if isinstance(n, ast.Return) and
+                isinstance(n.value, ast.Name)}
+    loops = [n for n in ast.walk(fi.node) if isinstance(n, ast.For) and
+             isinstance(n.iter, ast.Call) and
+             isinstance(n.iter.func, ast.Attribute) and
+             n.iter.func.attr == 'split' and n.iter.args and
+             isinstance(n.iter.args[0], ast.Constant) and
+             n.iter.args[0].value == ';']
+    if len(loops) != 1:
+        raise AnalysisError('endpoints.getDBusEndpoints: the loop over the '
+                            "';'-separated address entries was not found")
+    loop = loops[0]
+    fr = _Fresh(loop.body, allowed=returned)
+    names = sorted(fr.body_assigned | set(fr.carried))
+    for name in names:
+        bad = fr.carried.get(name)
+        ctx.ob('C09.D2', fi.qualname, 'per-entry:%s' % name, bad is None,
+               'while the address list is parsed, %r is %s (line %s) on a '
+               'path of the per-entry loop where this iteration has not '
+               'assigned it: it still holds what an EARLIER entry left '
+               'there, so a later entry is connected to an earlier entry\'s '
+               'address (tried twice) and the listed one never is'
+               % (name, bad[1] if bad else '', bad[0] if bad else ''),
+               loc='%s:%d' % (fi.module.relpath, bad[0]) if bad else None)
+    # the accumulator itself must be created before the loop, not inside
+    ctx.ob('C09.D2', fi.qualname, 'result-accumulates',
+           bool(returned) and not (returned & fr.body_assigned),
+           'the list of endpoints that is returned must be created once, '
+           'before the loop over the entries')
 
 
 def loss_sequence(ctx):
@@ -436,14 +612,72 @@ _MUT = {'append', 'extend', 'insert', 'remove', 'pop', 'clear', 'update',
         'add', 'discard', 'setdefault', 'popitem', 'sort', 'reverse'}
 
 
-def per_instance_registries(ctx):
+def _container_use(name, funcs):
+    """(methods that mutate self.<name> in place, is self.<name> ever
+    bound) over the given (qualname, FunctionDef) pairs."""
+    mutated = []
+    rebound = False
+    for qn, fnode in funcs:
+        for node in ast.walk(fnode):
+            if isinstance(node, ast.Call) and \
+                    isinstance(node.func, ast.Attribute) and \
+                    node.func.attr in _MUT and \
+                    isinstance(node.func.value, ast.Attribute) \
+                    and node.func.value.attr == name and \
+                    isinstance(node.func.value.value, ast.Name) \
+                    and node.func.value.value.id == 'self':
+                mutated.append(qn)
+            if isinstance(node, ast.Subscript) and \
+                    isinstance(node.ctx, (ast.Store, ast.Del)) \
+                    and isinstance(node.value, ast.Attribute) \
+                    and node.value.attr == name and \
+                    isinstance(node.value.value, ast.Name) and \
+                    node.value.value.id == 'self':
+                mutated.append(qn)
+            if isinstance(node, ast.Attribute) and \
+                    node.attr == name and \
+                    isinstance(node.ctx, ast.Store) and \
+                    isinstance(node.value, ast.Name) and \
+                    node.value.id == 'self':
+                rebound = True
+    return mutated, rebound
+
+
+def _container_control():
+    """the expected count on /repo is zero: prove on every run that the
+    rule can see a shared container (and is silent on a rebound one)"""
+    fx = os.path.join(os.path.dirname(os.path.dirname(os.path.dirname(
+        os.path.abspath(__file__)))), 'fixtures', 'class_level_container.py')
+    if not os.path.exists(fx):
+        raise AnalysisError('positive-control fixture missing: %s' % fx)
+    tree = ast.parse(open(fx).read())
+    got = {}
+    for c in tree.body:
+        if isinstance(c, ast.ClassDef):
+            funcs = [(f.name, f) for f in c.body
+                     if isinstance(f, ast.FunctionDef)]
+            got[c.name] = _container_use('items', funcs)
+    if not (got.get('Shared') and got['Shared'][0] and not got['Shared'][1]
+            and got.get('Own') and got['Own'][1]):
+        raise AnalysisError('per-instance rule does not match its fixture')
+
+
+C09_MODULES = ('client', 'objects', 'router', 'protocol', 'endpoints')
+
+
+def per_instance_registries(ctx, rule_id='C09.D6', modules=C09_MODULES,
+                            consequence='a callback registered on one '
+                            'object runs for every object'):
     """A class attribute initialised to a mutable container and mutated in
     place through an instance is shared by ALL instances (every proxy would
     see every other proxy's disconnect callbacks).  Such a registry must be
     (re)bound on the instance before it is mutated."""
     prog = ctx.prog
+    _container_control()
     n = 0
     for c in prog.all_classes.values():
+        if c.module.name not in modules:
+            continue
         cont = {}
         for name, v in c.attrs.items():
             if isinstance(v, (ast.List, ast.Dict, ast.Set)) or (
@@ -455,49 +689,26 @@ def per_instance_registries(ctx):
                      '_weakProxies', '_signalRules'):
             if name in c.attrs and name not in cont:
                 n += 1
-                ctx.ob('C09.D6', c.qualname, 'per-instance:%s' % name, True,
+                ctx.ob(rule_id, c.qualname, 'per-instance:%s' % name, True,
                        'class-level placeholder is not a container',
                        nontrivial=False)
         for name in cont:
-            mutated = []
-            rebound = False
-            for k in prog.subclasses(c):
-                for fi in k.methods.values():
-                    for node in ast.walk(fi.node):
-                        if isinstance(node, ast.Call) and \
-                                isinstance(node.func, ast.Attribute) and \
-                                node.func.attr in _MUT and \
-                                isinstance(node.func.value, ast.Attribute) \
-                                and node.func.value.attr == name and \
-                                isinstance(node.func.value.value, ast.Name) \
-                                and node.func.value.value.id == 'self':
-                            mutated.append(fi.qualname)
-                        if isinstance(node, ast.Subscript) and \
-                                isinstance(node.ctx, (ast.Store, ast.Del)) \
-                                and isinstance(node.value, ast.Attribute) \
-                                and node.value.attr == name and \
-                                isinstance(node.value.value, ast.Name) and \
-                                node.value.value.id == 'self':
-                            mutated.append(fi.qualname)
-                        if isinstance(node, ast.Attribute) and \
-                                node.attr == name and \
-                                isinstance(node.ctx, ast.Store) and \
-                                isinstance(node.value, ast.Name) and \
-                                node.value.id == 'self':
-                            rebound = True
+            mutated, rebound = _container_use(
+                name, [(fi.qualname, fi.node) for k in prog.subclasses(c)
+                       for fi in k.methods.values()])
             if not mutated:
                 continue
             n += 1
             key = (c.qualname, name)
             if key in SHARED_ON_PURPOSE:
-                ctx.ob('C09.D6', c.qualname, 'per-instance:%s' % name, True,
+                ctx.ob(rule_id, c.qualname, 'per-instance:%s' % name, True,
                        'shared on purpose: %s' % SHARED_ON_PURPOSE[key],
                        nontrivial=False)
                 continue
-            ctx.ob('C09.D6', c.qualname, 'per-instance:%s' % name, rebound,
+            ctx.ob(rule_id, c.qualname, 'per-instance:%s' % name, rebound,
                    'class attribute %s is a mutable container that %s '
                    'mutate(s) in place through self and that is never bound '
-                   'on the instance: all instances share ONE container (a '
-                   'callback registered on one object runs for every '
-                   'object)' % (name, sorted(set(mutated))[:2]))
-    ctx.extra['class_level_containers_checked'] = n
+                   'on the instance: all instances share ONE container (%s)'
+                   % (name, sorted(set(mutated))[:2], consequence))
+    ctx.extra['class_level_containers_checked:%s' % rule_id] = n
+    return n
